@@ -51,6 +51,16 @@ unsafe_builtins = {
     'display',
     'license',
     'dict',  # Constructor-based type escapes
+    'open',  # File system access
+    'eval',  # Running and compiling code
+    'exec',
+    'compile',
+    'input',  # Reading input, writing output
+    'print',
+    'help',
+    'exit',  # Leaving the process
+    'quit',
+    'delattr',  # Attribute manipulation (see setattr)
 }
 
 
